@@ -2145,7 +2145,9 @@ static int dfs_copy(vnaproperty_t **destination, const vnaproperty_t *source)
  */
 int vnaproperty_copy(vnaproperty_t **destination, const vnaproperty_t *source)
 {
-    (void)vnaproperty_delete(destination, ".");
+    if (vnaproperty_delete(destination, ".") == -1) {
+	return -1;
+    }
     return dfs_copy(destination, source);
 }
 
